@@ -2492,6 +2492,18 @@ class Emitter:
             ext = self.v.get("fns", {}).get(key) or self.v.get("fns", {}).get(name)
             if ext is None and len(f.segs) == 1 and env.get(name) is not None and env.get(name).ty[0] == "closure":
                 return self.call_closure(env.get(name), e.args, env, k)     # a local closure variable
+            if ext is None and len(f.segs) == 2 and name == "from" and f.segs[0] in WIDTH and len(e.args) == 1:
+                # `usize::from(x)` / `u32::from(x)` on an unsigned integer that is not wider (`From` exists only for lossless
+                # widenings; usize only from u8 / u16): the value itself, at the target type.  A vocabulary entry wins (above).
+                tgt = INT(f.segs[0])
+
+                def k_from(t, ty, env1):
+                    ok = is_int(ty) and not is_signed(ty) and ty[1] in WIDTH and (
+                        WIDTH[ty[1]] <= 16 if tgt[1] == "usize" else ty[1] != "usize" and WIDTH[ty[1]] <= WIDTH[tgt[1]])
+                    if not ok:
+                        raise EmitError("%s::from(%r): not a lossless widening of an unsigned integer" % (tgt[1], ty))
+                    return k(t, tgt, env1)
+                return self.expr(e.args[0], env, k_from)
             if ext is None:
                 # neither translated nor in the vocabulary: a helper DEFINED in the parsed source is inlined
                 loc = self.local_callee(f.segs)
@@ -2669,6 +2681,18 @@ class Emitter:
         if e.args:
             raise EmitError("first takes no argument")
         return k("(nth_error %s 0%%nat)" % rt, ("opt", rty[1]), env)
+
+    def m_list_get(self, e, rt, rty, env, k):
+        """`s.get(i)` on a slice / array / Vec with ONE unsigned integer index (no range): `None` past the end, else the
+        element (no panic); `.copied()` / `.cloned()` on the answer are transparent (e_mcall)"""
+        if len(e.args) != 1 or e.args[0].kind == "range":
+            raise EmitError("get takes one integer index")
+
+        def k1(i, ity, env1):
+            if not is_int(ity) or is_signed(ity):
+                raise EmitError("get: the index is a %r" % (ity,))
+            return k("(nth_error %s (N.to_nat %s))" % (rt, i), ("opt", rty[1]), env1)
+        return self.expr(e.args[0], env, k1)
 
     def m_list_position(self, e, rt, rty, env, k):
         cl = e.args[0]
@@ -3346,7 +3370,9 @@ class Emitter:
     def while_like(self, cond, bodyblk, env, k, extra_state=None, brk_value=None):
         fuel = self.loop_fuel(cond, env)
         if callable(fuel):
-            fuel = fuel(env)      # a fuel expression over the variables' current Coq names
+            # a fuel expression over the variables' current Coq names; a callable of TWO parameters is also given the loop
+            # condition (None for `loop`), so that it can name the variable the loop tests whatever it is called
+            fuel = fuel(env, cond) if getattr(getattr(fuel, "__code__", None), "co_argcount", 1) >= 2 else fuel(env)
         rs = bool(self.v.get("loop_ret_state"))   # opt-in: a `return` inside the loop carries the loop variables
         probe = N("block", stmts=[N("expr", e=cond, semi=True, attrs=[])] if cond is not None and cond.kind != "letcond" else
                   ([N("expr", e=cond.e, semi=True, attrs=[])] if cond is not None else []), tail=bodyblk)
